@@ -620,3 +620,6 @@ PROPS["C13"]["rule"] += " OS part: one case in four makes the first 1, 2, 3, 5 o
 PROPS["C17"]["rule"] += " Every probe also gathers through a real pedantic registry right after the direct scrape: the collector and the registry must agree on whether the scrape failed. A race-detector part (60 / 3000 configurations) runs three registries' gathers, two debug-API requests and one RA build per advertising interface from real goroutines at once."
 PROPS["C08"]["rule"] += " In a third of the cases with transmit latency, a transmission that completes after the stop request fails (ENETDOWN, ENOBUFS, a non-syscall error): the stop still ends without an error and, when terminating, with the final advertisement."
 PROPS["C20"]["rule"] += " In one case in ten the service manager's end of the notification socket is gone before the server starts (every notification fails): supervision must be unaffected."
+PROPS["C04"]["rule"] += " Failing-state sub-check (600 / 100 000 cases): the forwarding state cannot be read for stretches of time (EACCES on the sysctl file, a system call error, another error) while solicitations, foreign RAs and flips go on; Run may fail, every RA that does go out must agree with the forwarding state of that moment."
+PROPS["C06"]["rule"] += " One random history in four has the n-th (or every later) unicast transmission fail with a system call error."
+PROPS["C02"]["rule"] += " RDNSS servers include the IPv4 unspecified, broadcast and loopback addresses, three IPv4-mapped spellings and four spellings of the :: wildcard."
